@@ -149,7 +149,7 @@ def ram_histories(rng, n, kinds=('mbc1', 'mbc2', 'mbc3', 'mbc5'), ramcodes=None,
         kind = kinds[i % len(kinds)]
         typ = rng.choice(KINDS[kind])
         ramc = rng.choice(ramcodes if ramcodes is not None else RAMCODES)
-        rc = rng.choice([0, 1, 2])
+        rc = rng.choice([0, 1, 2, 2, 5, 6] if kind == 'mbc1' else [0, 1, 2, 2, 4])   # MBC1: also 64 / 128 ROM banks
         lines = ['cart.new %d %d %d' % (typ, rc, ramc)]
         offs = [0x0000, 0x0001, 0x01ff, 0x0200, 0x0201, 0x1fff, rng.randrange(0x2000), rng.randrange(0x2000)]
         for _ in range(rng.randrange(*steps)):
@@ -187,8 +187,9 @@ def ram_bank_walk(kinds=('mbc1', 'mbc3', 'mbc5'), ramcodes=None):
     cases = []
     for kind in kinds:
         for typ in KINDS[kind]:
-            for ramc in (ramcodes if ramcodes is not None else RAMCODES):
-                lines = ['cart.new %d 1 %d' % (typ, ramc), 'cart.w 0x0000 0x0a']
+            for ramc, romc in [(r, 1) for r in (ramcodes if ramcodes is not None else RAMCODES)] + \
+                              ([(3, 5), (3, 6), (2, 6)] if kind == 'mbc1' else [(3, 6)]):
+                lines = ['cart.new %d %d %d' % (typ, romc, ramc), 'cart.w 0x0000 0x0a']
                 if kind == 'mbc1':
                     lines.append('cart.w 0x6000 1')
                 top = 8 if kind == 'mbc3' else 16
@@ -203,7 +204,7 @@ def ram_bank_walk(kinds=('mbc1', 'mbc3', 'mbc5'), ramcodes=None):
                     lines.append('cart.w 0x4000 %d' % b)
                     lines.append('cart.rr 0xa000 0xa030 3')
                 lines.append('cart.dump')
-                cases.append(('bw_%s_%02x_s%d' % (kind, typ, ramc), lines))
+                cases.append(('bw_%s_%02x_s%d_r%d' % (kind, typ, ramc, romc), lines))
     return cases
 
 
